@@ -4,19 +4,31 @@ Spec: spec/SSHStrictKex.tla.  TLC checks S1 (strict on both sides + any attacker
 prefix => no working connection), S2 (sequence numbers restart at zero at NEWKEYS and stay in step),
 S3/S3b (peer-sent IGNORE/DEBUG transparent without strict mode / after the first exchange) over every
 attacker plan of <= 1 (quick) or <= 2 (thorough) edits and every noise placement, then every scenario
-is replayed on real handshakeTransport pairs through a packet-level man-in-the-middle."""
+is replayed on real handshakeTransport pairs through a packet-level man-in-the-middle.
+
+One-sided offers (strict mode is in force only when negotiated): S5 (a real side is strict only if the peer
+offered) and S6 (against a legacy peer -- never offers, never strict, keeps counting, sends IGNORE/DEBUG anywhere --
+the honest run works and no sequence number is reset at NEWKEYS) are checked over all 48 one-sided scenarios (part of
+the Honest config) and every scenario is replayed with an independent raw SSH transport (harness/c30/c30_legacy_peer.go, standard library
+only, hmac over the sequence number) against the real ssh.NewServerConn / ssh.NewClientConn.  A documentation
+config with the server's rule changed to 'own marker' must violate S5 and S6."""
 import vlib
 
 def run(ctx):
     ctx.rule = ("cases = scenarios enumerated by TLC: attacker plans (insert IGNORE/DEBUG/UNIMPLEMENTED/unknown/NEWKEYS at any position, delete, "
                 "swap adjacent) of <=1 (quick) / <=2 (thorough) edits on the cleartext prefix of either direction with strict KEX on both sides; "
                 "peer noise vectors (0-2 IGNORE/DEBUG before KEXINIT, kex message, NEWKEYS, first application packet) for strict on/off; "
-                "attacker vs non-strict peers (conformance only); distinct = distinct scenarios")
+                "attacker vs non-strict peers (conformance only); one-sided offers: legacy client vs real server and legacy server vs "
+                "real client (public API), legacy side's noise vector over its four slots, honest network, plus both-offer runs of the "
+                "independent peer in either role; distinct = distinct scenarios")
     ctx.assumptions = ["curve25519-sha256 key exchange (three cleartext packets per direction)",
                        "a handshake that does not complete within the scenario timeout counts as failed (never as a violation); "
                        "an honest scenario that times out is infrastructure trouble (exit 2)",
                        "strict-KEX is switched off by a verif hook that removes the marker from the outgoing KEXINIT on both sides",
-                       "MAC/AEAD authenticates the sequence number (axiom of the model; C25/C26 check it)"]
+                       "MAC/AEAD authenticates the sequence number (axiom of the model; C25/C26 check it)",
+                       "one-sided scenarios: the legacy peer is an independent implementation of RFC 4253/8731/8709 written with the standard "
+                       "library (curve25519-sha256, ssh-ed25519, aes128-ctr, hmac-sha2-256); the real side runs its default configuration "
+                       "(it always offers strict KEX) through ssh.NewServerConn (NoClientAuth) / ssh.NewClientConn; honest network only"]
     sets = ["Honest", "Strict1", "Noise", "Weak1"] + (["Strict2"] if ctx.thorough else [])
     for s in sets:
         ctx.tlc_must_hold("SSHStrictKex_MC", cfg="SSHStrictKex_%s.cfg" % s, timeout=1200)
@@ -24,6 +36,12 @@ def run(ctx):
         r = ctx.tlc_must_hold("SSHStrictKex_MC", cfg="SSHStrictKex_Gen%s.cfg" % s, workers=1, timeout=1800, count=False)
         if not r.traces:
             raise vlib.Infra("generator %s produced nothing" % s)
+        if s == "Honest":
+            # the honest base set carries the one-sided scenarios as well (one TLC run): they go to the legacy-peer replay
+            legacy = [t for t in r.traces if "legacy" in t["sc"]["kind"].values()]
+            r.traces = [t for t in r.traces if "legacy" not in t["sc"]["kind"].values()]
+            if not r.traces:
+                raise vlib.Infra("generator Honest produced no both-real scenario")
         if ctx.replay:
             import json
             want = json.load(open(ctx.replay))["violation"]["detail"]["scenario"]
@@ -39,4 +57,46 @@ def run(ctx):
         if res.get("extra", {}).get("infra_timeouts"):
             ctx.notes.append("%s: %d honest scenarios timed out (not counted)" % (s, res["extra"]["infra_timeouts"]))
         ctx.absorb(res)
+    onesided(ctx, legacy)
     ctx.exhaustive = True
+
+
+def onesided(ctx, all_traces):
+    """Strict mode only when negotiated: S5/S6 hold over the one-sided scenarios (SSHStrictKex_Honest.cfg); here they are
+    replayed with the independent legacy peer."""
+    # the properties can fail: a server that consults its own KEXINIT's marker reaches a state violating S5 and S6
+    d = ctx.tlc("SSHStrictKex_MC", cfg="SSHStrictKex_DocOwn.cfg", workers=1, timeout=600, expect_violation=True, count=False,
+                note="documentation: with the server's rule 'own marker' S5 and S6 must fail (together, in one state)")
+    if d.violated != "S5orS6":
+        raise vlib.Infra("SSHStrictKex_DocOwn.cfg: expected S5orS6 to be violated, got %r" % (d.violated,))
+    if not all_traces:
+        raise vlib.Infra("generator Honest produced no one-sided scenario")
+    bad = [t for t in all_traces if not t["success"] or t["strict"]["c"] or t["strict"]["s"]]
+    if bad:
+        raise vlib.Infra("model: a one-sided honest scenario does not end established and non-strict: %r" % bad[0])
+    traces = all_traces
+    if ctx.replay:
+        import json
+        det = json.load(open(ctx.replay))["violation"]["detail"]
+        want = det.get("scenario")
+        traces = [t for t in traces if t["sc"] == want]
+        if not traces:
+            if "kind" in (want or {}) and any(v != "real" for v in want["kind"].values()):
+                traces = all_traces   # a both-offer run of the independent peer: those always run
+            else:
+                return
+    res = ctx.go_test("c30", "TestLegacy", cases=traces, timeout=600)
+    ran = res.get("extra", {}).get("onesided_ran", {})
+    ctx.log("OneSided: %d terminal states -> %d runs (%s)" % (len(all_traces), res.get("evaluations", 0), ran))
+    ctx.absorb(res)
+    if res.get("violations"):
+        return
+    if not ctx.replay:
+        for k in ("server:quiet", "server:noisy", "client:quiet", "client:noisy"):
+            if not ran.get(k):
+                raise vlib.Infra("one-sided scenarios: nothing ran for %s (ran: %r)" % (k, ran))
+    ctl = res.get("extra", {}).get("control_offer_not_honoured", {})
+    for role in ("server", "client"):
+        if not ctl.get(role, {}).get("fails") and not ctx.violations:
+            raise vlib.Infra("sensitivity control: an independent peer that offers strict KEX but keeps counting its sequence numbers was "
+                             "NOT refused by the real %s: the harness cannot see a sequence-number disagreement (%r)" % (role, ctl.get(role)))
